@@ -78,4 +78,16 @@ def find (op : Op) (refset : TSet) (sels : List TSel) (res : Res) : Out (List TS
         | .bwd => bwdRange sels p.1 p.2.1
       .ok (cands.filter (fun t => setTest op refset t res && !(refset.items.contains t)))
 
+/-- the members of a reference set, each once (the first occurrence stays) -/
+def distinctItems : List TSel → List TSel
+  | [] => []
+  | x :: xs => x :: (distinctItems xs).filter (fun y => y != x)
+
+def TSet.distinct (s : TSet) : TSet := ⟨distinctItems s.items, s.sorted⟩
+
+/-- `TextResource::textselections_by_operator`: a selection that the reference set holds more than once counts once,
+then the iterator runs -/
+def search (op : Op) (refset : TSet) (sels : List TSel) (res : Res) : Out (List TSel) :=
+  find op refset.distinct sels res
+
 end Stam
